@@ -472,9 +472,16 @@ def search_exprs(ctx: Ctx) -> SearchResult:
 						'float': (['ys', '[b, e]', 'reversed(ys)', '{s: b}.values()'], ['b', 'e', '0.5']),
 						'list[int]': (['xss', 'dd.values()', '[xs]', 'xss.copy()'], ['xs', '[a]']),
 					}
-					el = rng.choice(list(by_el))
+					el = rng.choice(['int', 'str', 'str', 'float', 'list[int]'])
 					srcs, plain = by_el[el]
 					items = ['*' + rng.choice(srcs) for _ in range(rng.randint(1, 2))] + [rng.choice(plain) for _ in range(rng.randint(0, 2))]
+					# mostly: at least one source whose type has two DIFFERENT type arguments (a dict: the items are its keys)
+					two = {'int': ['di'], 'str': ['d', 'dd', 'do']}.get(el)
+					if two and rng.random() < 0.75:
+						# (alone or with other dicts: next to an item of the right type a wrongly typed spread only widens the element type to a
+						# Union, which still denotes the run-time type)
+						items = ['*' + rng.choice(two) for _ in range(rng.randint(1, 2))] + ([rng.choice(plain)] if rng.random() < 0.25 else [])
+						rng.shuffle(items)
 					rng.shuffle(items)
 					e1 = '[' + ', '.join(items) + ']'
 					r = rng.random()
